@@ -27,17 +27,15 @@ func (a *DropPlanner) cutLabels(e *shared.LogEntry) error {
 	if e.Labels == nil {
 		return nil
 	}
-	recountFP := false
 	for k, v := range e.Labels {
 		for i, l := range a.Labels {
 			if k == l && (a.Values[i] == "" || v == a.Values[i]) {
 				delete(e.Labels, k)
-				recountFP = true
 			}
 		}
 	}
-	if recountFP {
-		e.Fingerprint = fingerprint(e.Labels)
-	}
+	// every entry gets the fingerprint of its label set, also the ones that lost nothing: an entry that
+	// already had the remaining labels must land in the same series as one that was cut down to them
+	e.Fingerprint = fingerprint(e.Labels)
 	return nil
 }
